@@ -1136,7 +1136,7 @@ class FnTr:
         texts = []
         for v, pty, _ in vals:
             texts += self.arg_texts(v, pty)
-        fn = f"{self.u.namespace}.{name}"
+        fn = getattr(self.u, "extern", {}).get(name) or f"{self.u.namespace}.{name}"
         call = fn + (f" {recv}" if recv is not None else "") + "".join(" " + t for t in texts)
         ret = sig["ret"]
         if ret in (("named", self.u.name),):
